@@ -8,10 +8,10 @@
 EXTENDS Parser, TLC
 
 AnyVariant == {"-", "exact", "zero", "one", "minus1", "plus1", "p31", "max"}
-AllKinds == {"b", "t", "s", "m", "a", "c", "r", "R"}
+AllKinds == {"b", "t", "s", "m", "a", "c", "o", "p", "u", "r", "R"}
 (* every kind that changes the encoding: the two unbounded-output findings (KF8, KF9) are    *)
 (* triggered by ANY malformed stream that decodes to a match with a huge length              *)
-MutKinds == {"t", "s", "m", "a", "c", "r", "R"}
+MutKinds == {"t", "s", "m", "a", "c", "o", "p", "u", "r", "R"}
 (* size class (MiB) of the allocation that failed.  KF8 / KF9 grow their OUTPUT until the     *)
 (* allocator refuses the doubling at 1 GiB: a request of any other size in the same parsers  *)
 (* (e.g. a buffer reserved straight from a length field) is a different defect.  KF9 extends *)
@@ -65,7 +65,10 @@ KFTable == {
      variants |-> {"p31"}, kinds |-> {"a", "b", "c", "m", "r", "s", "t"}, allocs |-> AnyAlloc],
     [id |-> "C15-KF10", outcome |-> "panic",
      parsers |-> {"simdenc.varint.decode_batch"},
-     variants |-> {"max"}, kinds |-> {"a", "b", "c", "m", "r", "s", "t"}, allocs |-> AnyAlloc]
+     variants |-> {"max"}, kinds |-> {"a", "b", "c", "m", "r", "s", "t"}, allocs |-> AnyAlloc],
+    [id |-> "C15-KF11", outcome |-> "oom",
+     parsers |-> {"fse.decompress.parallel", "fse.decompress.parallel_default"},
+     variants |-> {"-"}, kinds |-> {"o", "p", "u"}, allocs |-> 256..1023]
 }
 
 (* the enabled deviations (literal set: tools/sync_known.py removes the ids of findings whose  *)
